@@ -36,3 +36,27 @@ CHECKS["C19"] = {
     "assumptions": ["oracle = spec/ts29244_flags.json, transcribed by hand from TS 29.244 8.2.26/8.2.19/8.2.41/8.2.13; tools/gen_c19.py turns it into assertions",
                     "'same name' is literal: REEMR has no same-named usage-report trigger and must map to nothing"],
 }
+
+PFCP_ASSUME = [
+    "logrus calls are no-ops (Fatal* = process exit event); fmt/pkg-errors formatting is an intrinsic (pkg/errors.Wrap(nil)==nil kept)",
+    "UDP: WriteTo appends to a log, no loss/reordering; timers never fire by themselves",
+    "time.Now is a fixed concrete instant; node ids are IPv4 literals (no DNS)",
+    "map iteration in insertion order in the engine (Go randomises); oracles treat map-ordered outputs as multisets",
+]
+
+CHECKS["C04"] = {
+    "jobs": {
+        "quick": [{"pkg": "internal/pfcp", "entries": ["ZZ_C04_*"], "witnesses": 3, "max_paths": 20000}],
+        "thorough": [{"pkg": "internal/pfcp", "entries": ["ZZ_C04_*"], "witnesses": 6, "max_paths": 200000}],
+    },
+    "covers": {"all": ["ZZ_C04_Lookup:C04.lookup.done", "ZZ_C04_NodeLookup:C04.nodelookup.done", "ZZ_C04_New:C04.new.done",
+                       "ZZ_C04_DeleteNode:C04.delete.hit", "ZZ_C04_DeleteNode:C04.delete.miss", "ZZ_C04_DeleteLocal:C04.delete.hit",
+                       "ZZ_C04_Reset:C04.reset.done", "ZZ_C04_RemoteSess:C04.remotesess.done",
+                       "ZZ_C04_ModifyHeader:C04.mod.done", "ZZ_C04_DeleteHeader:C04.del.done"]},
+    "bounds": {
+        "quick": "one-step induction: every SEID-table shape of length <= 3 (any nil pattern, any free-list permutation, any owner assignment over 2 nodes, symbolic CP SEIDs) x one operation (lookup, node lookup, new, delete via node, delete local, node reset, remote lookup, Modification/Deletion request header) with unconstrained 64-bit SEID arguments",
+        "thorough": "same with table length <= 4",
+    },
+    "outside": "tables longer than the bound; more than two control-plane nodes",
+    "assumptions": PFCP_ASSUME + ["representation invariant I1-I4 of DESIGN.md 6/C04 assumed on the pre-state and re-established after each operation"],
+}
